@@ -235,13 +235,18 @@ impl LogState {
                             format!("redo {} ", format_thousands(self.total_lines as u64));
                         let mut tail = String::new();
                         for n in self.depth.iter().rev() {
-                            let remain = width - head.len() - tail.len();
+                            let remain = width.saturating_sub(head.len() + tail.len());
                             // always leave room for a final '... ' prefix
                             if remain < n.len() + 4 + 1 || remain <= 4 {
                                 if n.len() < 6 || remain < 6 + 1 + 4 {
                                     tail = format!("... {}", tail);
                                 } else {
-                                    let start = n.len() - (remain - 3 - 1);
+                                    // (a byte offset: move on to the next character
+                                    // boundary, the name may not be ASCII)
+                                    let mut start = n.len() - (remain - 3 - 1);
+                                    while !n.is_char_boundary(start) {
+                                        start += 1;
+                                    }
                                     tail = format!("...{} {}", &n[start..], &tail);
                                 }
                                 break;
